@@ -191,7 +191,10 @@ def unwrap_stackslice(spec: StackSlice) -> Iterator[types.FrameType]:
     # to innermost.
     frames: List[types.FrameType] = []
 
-    if sys.implementation.name == "cpython" and greenlet_getcurrent().parent:
+    if (
+        sys.implementation.name == "cpython"
+        and greenlet_getcurrent().parent is not None
+    ):
         # On CPython, each greenlet is its own universe traceback-wise:
         # if you're inside a non-main greenlet and you follow f_back links
         # outward from your current frame, you'll only find the outermost
